@@ -38,7 +38,78 @@ def mk_case(dtype, vals, kind="encode", **kw):
     return c
 
 
+CONST_CAP_CELLS = 1 << 27      # sizes taken from the constants of the source (rtmon/codeconst.py): arrays of up to 2**27 one-byte elements, given by a formula
+
+
+def run_big(case):
+    """an array of millions of elements given as a short list of (run length, value) pairs, or as `alt` alternating runs; vectorised oracle"""
+    RLA = CTX.lib.RunLengthArray
+    dt = np.dtype(case["dtype"])
+    tags = ["k:bigencode", "kind:" + dt.kind, "dt:" + dt.name]
+    if "alt" in case:
+        n_ = case["alt"]
+        vals = np.tile(np.array(case["pair"], dtype=dt), n_ // 2 + 1)[:n_]
+        lens = np.ones(n_, dtype=np.int64)
+        lens[::7] = 2
+    else:
+        lens = np.array([l for l, _ in case["runs"]], dtype=np.int64)
+        vals = np.array([x for _, x in case["runs"]], dtype=dt)
+    v = np.repeat(vals, lens)
+    L = len(v)
+    desc = "RunLengthArray.from_array(%s array of %d elements, runs %s)" % (dt, L, short(case.get("runs", "alternating"), 120))
+    e = attempt(RLA.from_array, v)
+    if not e.ok:
+        return violated("%s raised %r" % (desc, e), tags)
+    r = e.value
+    keep = np.r_[True, vals[1:] != vals[:-1]]
+    ends_all = np.cumsum(lens)
+    starts_all = ends_all - lens
+    exp_starts = starts_all[keep]
+    exp_ends = np.r_[exp_starts[1:], L]
+    exp_vals = vals[keep]
+    CTX.tick("c14:canonical")
+    CTX.tick("c14:joined")
+    got = attempt(lambda: (np.asarray(r.starts), np.asarray(r.ends), np.asarray(r.values), int(len(r))))
+    if not got.ok:
+        return violated("%s: starts/ends/values unreadable: %r" % (desc, got), tags)
+    gs, ge, gv, gl = got.value
+    if gl != L or not np.array_equal(gs, exp_starts) or not np.array_equal(ge, exp_ends) or not same_array(gv, exp_vals, dtype=True):
+        m_ = min(len(gs), len(exp_starts))
+        diff_ = np.flatnonzero(gs[:m_] != exp_starts[:m_])
+        k = int(diff_[0]) if len(diff_) else m_
+        return violated("%s: %d runs (expected %d), len %d (expected %d); run starts around run %d: %s, expected %s" % (desc, len(gs), len(exp_starts), gl, L, k, gs[max(0, k - 1):k + 2].tolist(), exp_starts[max(0, k - 1):k + 2].tolist()),
+                        tags + ["not-canonical"])
+    CTX.tick("c14:roundtrip")
+    d = attempt(lambda: np.asarray(r.to_array()))
+    if not d.ok or d.value.shape != v.shape or not same_array(d.value, v, dtype=True):
+        k = int(np.flatnonzero(d.value != v)[0]) if d.ok and d.value.shape == v.shape else -1
+        return violated("%s: decoding differs from the input%s" % (desc, " first at position %d" % k if k >= 0 else ": %r" % (d,)), tags)
+    return held(tags, True)
+
+
+def big_cases(rng, s, form, dtype=None):
+    dtype = dtype or rng.choice(["int8", "uint8", "bool"])
+    a, b = (True, False) if dtype == "bool" else rng.sample([0, 1, 5, 100], 2)
+    if form in ("rows", "nonempty"):
+        return [{"kind": "bigencode", "dtype": dtype, "alt": s, "pair": [a, b]}] if s <= 1 << 23 else None
+    if form == "cells":
+        return [{"kind": "bigencode", "dtype": dtype, "runs": rr} for rr in ([[s - 5, a], [5, b]], [[3, a], [s - 3, b]], [[s // 2, a], [s - s // 2, b]])]
+    return [{"kind": "bigencode", "dtype": dtype, "runs": rr} for rr in ([[s, a], [3, b], [2, a]], [[2, b], [s, a], [5, b]], [[s - 1, a], [1, b], [4, a]], [[s, a], [s, b]])]
+
+
+def const_case(rng, tier, s, form):
+    """sizes taken from the numeric constants of the source: up to 300000 through the case generator's first size (explicit values), beyond that
+    as formula-given arrays (one run of exactly s elements, s elements in all, s runs)"""
+    if s > 300000:
+        gen.FORCED["used"] += 1
+        return big_cases(rng, s, form)
+    c = random_case(rng, tier)
+    return c if gen.FORCED["used"] else None
+
+
 def run(case):
+    if case.get("kind") == "bigencode":
+        return run_big(case)
     RLA = CTX.lib.RunLengthArray
     dt = np.dtype(case["dtype"])
     v = np.array(case["vals"]).astype(dt)
@@ -76,26 +147,43 @@ def run(case):
     with _w.catch_warnings():
         _w.simplefilter("ignore")
         f64 = v.astype(np.float64) if dt.kind != "f" else v.astype(np.float32 if dt != np.float32 else np.float64)
-    convs = [("np.array(copy=True)", lambda: np.array(r, copy=True), v), ("np.array(dtype=%s)" % f64.dtype, lambda: np.array(r, dtype=f64.dtype), f64),
-             ("np.asarray(dtype=own)", lambda: np.asarray(r, dtype=dt), v)]
-    # conversions across kinds (float -> int, signed -> unsigned, anything -> bool) are what numpy's own astype gives (finite values only)
-    if dt.kind != "f" or bool(np.all(np.isfinite(v))):
-        for tgt in (["int64", "uint8", "bool", "int8"] if dt.kind == "f" else ["uint8", "bool", "uint64", "int16"]):
-            with _w.catch_warnings():
-                _w.simplefilter("ignore")
-                with np.errstate(all="ignore"):
-                    want_ = np.asarray(v).astype(tgt)
-            if dt.kind == "f" and tgt != "bool" and not np.array_equal(want_.astype(np.float64), np.trunc(v.astype(np.float64))):
-                continue      # out-of-range float -> int casts are undefined in C; only in-range values are compared
-            convs.append(("np.asarray(dtype=%s)" % tgt, (lambda t_: (lambda: np.asarray(r, dtype=t_)))(tgt), want_))
-    if L <= 40:
-        convs += [("list()", lambda: np.array(list(r), dtype=dt), v), ("reversed()", lambda: np.array(list(reversed(r)), dtype=dt), v[::-1])]
+    def conversions(r):
+        convs = [("np.array(copy=True)", lambda: np.array(r, copy=True), v), ("np.array(dtype=%s)" % f64.dtype, lambda: np.array(r, dtype=f64.dtype), f64),
+                 ("np.asarray(dtype=own)", lambda: np.asarray(r, dtype=dt), v)]
+        # conversions across kinds (float -> int, signed -> unsigned, anything -> bool) are what numpy's own astype gives (finite values only)
+        if dt.kind != "f" or bool(np.all(np.isfinite(v))):
+            for tgt in (["int64", "uint8", "bool", "int8"] if dt.kind == "f" else ["uint8", "bool", "uint64", "int16"]):
+                with _w.catch_warnings():
+                    _w.simplefilter("ignore")
+                    with np.errstate(all="ignore"):
+                        want_ = np.asarray(v).astype(tgt)
+                if dt.kind == "f" and tgt != "bool" and not np.array_equal(want_.astype(np.float64), np.trunc(v.astype(np.float64))):
+                    continue      # out-of-range float -> int casts are undefined in C; only in-range values are compared
+                convs.append(("np.asarray(dtype=%s)" % tgt, (lambda t_: (lambda: np.asarray(r, dtype=t_)))(tgt), want_))
+        if L <= 40:
+            convs += [("list()", lambda: np.array(list(r), dtype=dt), v), ("reversed()", lambda: np.array(list(reversed(r)), dtype=dt), v[::-1])]
+        return convs
+    convs = conversions(r)
     for what, f, want in convs:
         o = attempt(f)
         if not o.ok:
             return violated("%s: %s raised %r" % (desc, what, o), tags + ["conversion"])
         if not (isinstance(o.value, np.ndarray) and same_array(o.value, want, dtype=True)):
             return violated("%s: %s gives %s %s, expected %s %s" % (desc, what, getattr(o.value, "dtype", None), short(o.value, 120), want.dtype, short(want, 120)), tags + ["conversion"], got=o.value, expected=want)
+    # the order of conversions must not matter: on a second, fresh encoding of the same data one of the typed conversions comes FIRST, the
+    # plain ones (np.asarray, np.array, to_array) after it -- what the first request leaves behind on the object must not show in the later ones
+    r2 = attempt(RLA.from_array, v.copy())
+    if r2.ok:
+        c2 = conversions(r2.value)
+        k_ = (L + int(np.asarray(v != v[0]).sum())) % len(c2)
+        CTX.tick("c14:conversion-order")
+        for what, f, want in [c2[k_], ("np.asarray() after " + c2[k_][0], lambda: np.asarray(r2.value), v), ("np.array() after " + c2[k_][0], lambda: np.array(r2.value), v),
+                              ("to_array() after " + c2[k_][0], lambda: r2.value.to_array(), v), c2[(k_ + 1) % len(c2)]]:
+            o = attempt(f)
+            if not o.ok:
+                return violated("%s: %s raised %r" % (desc, what, o), tags + ["conversion", "conversion-order"])
+            if not (isinstance(o.value, np.ndarray) and same_array(o.value, want, dtype=True)):
+                return violated("%s: %s gives %s %s, expected %s %s" % (desc, what, getattr(o.value, "dtype", None), short(o.value, 120), want.dtype, short(want, 120)), tags + ["conversion", "conversion-order"], got=o.value, expected=want)
     if dt.kind in "iub" and L <= 40:
         present, absent = v[L // 2].item(), next(x for x in (7, 3, 0, 1, 101, -5, 2) if x not in v.tolist() or True)
         for x_ in (present, absent):
@@ -157,7 +245,13 @@ def run(case):
         if case["via"] == "concat":
             src = np.concatenate([r, r])
             dense = np.concatenate([v, v])
-        elif case["via"] == "floordiv":
+        elif case["via"] == "add_big" and dt.kind == "f":
+            # a scalar that absorbs the differences between neighbouring values: the runs of the sum hold equal values
+            big = dt.type(1e16 if dt.itemsize >= 8 else (1e9 if dt.itemsize == 4 else 4096.0))
+            src, dense = (r + big, v + big) if L % 2 else (big - r, big - v)
+        elif case["via"] == "mul0" and dt.kind != "b":
+            src, dense = r * dt.type(0), v * dt.type(0)
+        elif case["via"] in ("floordiv", "add_big", "mul0"):
             src, dense = (r // 2, v // 2) if dt.kind != "b" else (np.logical_or(r, True), np.logical_or(v, True))
         else:
             src, dense = (r > 2, v > 2) if dt.kind != "b" else (np.logical_and(r, False), np.logical_and(v, False))
@@ -247,7 +341,7 @@ def gen_case(rng, tier, kind=None, dtype=None, vclass=None, style=None):
     if kind == "slice":
         c["slice"] = gen.gen_slice(rng, L)
     elif kind == "slice_derived":
-        c["via"] = rng.choice(["concat", "floordiv", "cmp"])
+        c["via"] = rng.choice(["concat", "floordiv", "cmp", "add_big", "add_big", "mul0"])
         c["slice"] = gen.gen_slice(rng, 2 * L if c["via"] == "concat" else L, steps=(2, 3, -1, -2, -3, None, 7))
     elif kind == "ufunc2":
         dt2 = rng.choice(gen.DT_ALL)
@@ -299,9 +393,13 @@ def directed():
         yield mk_case("float64", b_, "ufunc2", vals2=a_, dtype2="float64", uf=uf_, style="runs", vclass="extreme")
     # coinciding boundaries with a result that is constant across them
     for vals in ([4, 4, 9, 9], [1, 2, 3], [5, 5, 5, 6], [2, 3, 2, 3, 4, 5]):
-        for via in ("concat", "floordiv", "cmp"):
+        for via in ("concat", "floordiv", "cmp", "mul0"):
             for sl in (slice(None, None, 2), slice(None, None, -1), slice(None, None, -2), slice(1, None, 3)):
                 yield mk_case("int64", vals, "slice_derived", via=via, slice=sl, style="runs", vclass="small")
+        for dtype_ in ("float64", "float32", "float16"):
+            for sl in (slice(None, None, 2), slice(None, None, -1), slice(None, None, -2), slice(1, None, 3), slice(None, None, 1)):
+                yield mk_case(dtype_, [float(x) for x in vals], "slice_derived", via="add_big", slice=sl, style="runs", vclass="small")
+                yield mk_case(dtype_, [float(x) for x in vals] + [0.0], "slice_derived", via="add_big", slice=sl, style="runs", vclass="small")
     for a, b, uf in [([1, 1, 2, 2], [2, 2, 1, 1], "add"), ([1, 1, 2, 2], [1, 1, 2, 2], "subtract"), ([1, 2, 2, 3], [1, 2, 2, 3], "equal"),
                      ([0, 0, 5, 5, 0], [5, 5, 0, 0, 5], "maximum"), ([1, 0, 0, 1], [0, 1, 1, 0], "logical_or"), ([3, 3, 3, 4, 4], [4, 4, 3, 3, 3], "minimum")]:
         for dtype in ["int64", "float32", "uint8"]:
